@@ -114,7 +114,13 @@ Proof.
   - destruct (l =? nlabels b); [cbn [fst]; apply links_ok_add_node|]; exact H.
   - (* add_func: three non-section nodes, then the cursor moves *)
     eapply links_ok_same; [| | |apply links_ok_add_node; apply links_ok_add_node; apply links_ok_add_node; exact H]; reflexivity.
-  - destruct (cur_func b); exact H.
+  - (* end_func: at most a (non-section) pool node is linked in; then the cursor moves *)
+    destruct (cur_func b) as [fl|]; cbn [fst]; [|exact H]. cbn [lpool with_func with_pend].
+    destruct (lpool b) as [[pl pd]|].
+    + match goal with |- links_ok (with_list (add_node ?n ?bm) _ _ _) =>
+        apply (links_ok_same (add_node n bm)); [reflexivity|reflexivity|reflexivity|apply links_ok_add_node; exact H] end.
+    + exact H.
+  - destruct (scope =? 0); [destruct (lpool b) as [[? ?]|]|destruct (gpool b) as [[? ?]|]]; exact H.
   - destruct i as [i|]; [destruct (in_range i (active b))|]; exact H.
   - destruct (in_range i (active b)); [|exact H]. cbn [fst]. apply links_ok_remove_range; [lia|exact H].
   - destruct (in_range i (active b)); [|exact H]. destruct (in_range j (active b)); [|exact H]. destruct (Nat.leb i j) eqn:E3; [|exact H].
